@@ -76,6 +76,9 @@ type Exec struct {
 	depth     int
 	lenient   int
 	inInit    int
+	// map-order schemes set by verif_maporder: 0 insertion order, 1 every map range reversed, 2 only the flipSite-th
+	// map range (counted from the call, maps with at least two entries) reversed
+	flipMode, flipSite, mapRangeCount int
 	globalMut bool
 	mutexHeld map[*Value]int
 	goSkipped map[string]bool
@@ -120,6 +123,7 @@ func (ex *Exec) resetPath(prefix []int) {
 	ex.depth = 0
 	ex.lenient = 0
 	ex.inInit = 0
+	ex.flipMode, ex.flipSite, ex.mapRangeCount = 0, 0, 0
 	ex.mutexHeld = map[*Value]int{}
 	ex.observed = map[string]Value{}
 	ex.curDeferFrame = nil
